@@ -530,7 +530,7 @@ class Mode:
 
 
 PURE_BUILTINS = {"hex", "getattr", "len", "isinstance", "id", "hasattr", "bool", "tuple", "frozenset", "min", "max", "abs", "callable", "type", "iter", "int"}
-SPEC_FUNCS = {"all_in", "tagall", "flat", "oldfield", "called", "listof", "intof", "after", "values", "entry", "implies", "old", "call", "call2", "all", "any", "no_dups", "seq", "setof", "filt", "addall", "cat", "forall", "exists",
+SPEC_FUNCS = {"mapfn", "all_in", "tagall", "flat", "oldfield", "called", "listof", "intof", "after", "values", "entry", "implies", "old", "call", "call2", "all", "any", "no_dups", "seq", "setof", "filt", "addall", "cat", "forall", "exists",
               "is_tuple", "ite", "fresh", "contents", "keys", "dget", "dhas", "rng", "idof", "rev", "prefix", "isinst", "truth",
               "subseq_of", "perm", "count", "sorted_by", "index", "pair", "slice_adj", "typeis", "allocated", "ghost"}
 
@@ -1477,6 +1477,21 @@ def _patch_engine():
         return SV("v", L.sbox(L.app(L.app(L.sempty, a), b)), "tupleval")
     E.sf_pair = sf_pair
 
+    def sf_mapfn(self, node, st, m):
+        """mapfn(f, s) = [f(x) for x in s]  (f a pure callable, see apply_fn)"""
+        f = self.pev(node.args[0], st, m)
+        sq = self.as_seq(self.pev(node.args[1], st, m), st)
+        memo = self.__dict__.setdefault("_mapfn_memo", {})
+        key = f.t.get_id()
+        if key not in memo:
+            M = self.fresh("fnmap", MapS)
+            x = Const("x", V)
+            ap = self.apply_fn(f, [SV("v", x, None)]).t
+            self.extra_axioms.append(ForAll([x], Select(M, x) == ap, patterns=[Select(M, x), ap]))
+            memo[key] = (M, f.t)
+        return SV("seq", L.smap(memo[key][0], sq))
+    E.sf_mapfn = sf_mapfn
+
     def sf_all_in(self, node, st, m):
         """all_in(S, p): every element of the sequence p is a member of the set S (predicate chain_in with an induction axiom)"""
         S = self.as_set(self.pev(node.args[0], st, m), st)
@@ -2146,6 +2161,25 @@ def _patch_exec():
             return self.store_subscript(tgt, sv, st, ctx, k)
         raise OutOfSubset(f"assignment target {type(tgt).__name__}")
     E.assign = assign
+
+    def del_slice(self, b, tgt, st, ctx):
+        """del lst[a:b] (step 1) on a list / deque object"""
+        sl = tgt.slice
+        if sl.step is not None or not (b.kind == "v" and (b.hint in ("list", "deque") or (b.hint in CLASSES and CLASSES[b.hint].isa == "list"))):
+            raise OutOfSubset("del of this slice form")
+        def got(lo, hi, st2):
+            sq = self.hget(st2, "$seq", b.t)
+            n = L.slen(sq)
+            a, bb = self.clamp_slice(self.as_int(lo) if lo is not None else None, self.as_int(hi) if hi is not None else None, n)
+            ctx.k(self.hset(st2, "$seq", b.t, L.cat(L.slc(sq, IntVal(0), a), L.slc(sq, bb, n))))
+        def with_lo(lo, st1):
+            if sl.upper is None:
+                return got(lo, None, st1)
+            self.ev(sl.upper, st1, ctx, lambda hi, st2: got(lo, hi, st2))
+        if sl.lower is None:
+            return with_lo(None, st)
+        self.ev(sl.lower, st, ctx, with_lo)
+    E.del_slice = del_slice
 
     def store_subscript(self, tgt, sv, st, ctx, k):
         def got_base(b, st2):
@@ -3129,6 +3163,10 @@ def _patch_calls():
                             return self.ev_contract_call(FUNCS[mkey], None, node, st2, ctx, k, recv=recv)
                         if c.isa:
                             return self.ev_list(node.args, st2, ctx, lambda svs, st3: self.builtin_method(c.isa, f.attr, recv, svs, node, st3, ctx, k))
+                        if self.lookup_field_type(c, f.attr) == "fn":
+                            # a stored pure callable applied to arguments that are not pure expressions themselves
+                            fsv = self.read_field(st2, recv, f.attr, Mode(spec=True))
+                            return self.ev_list(node.args, st2, ctx, lambda svs, st3: k(self.apply_fn(fsv, svs), st3))
                         raise OutOfSubset(f"method {h}.{f.attr}: no contract")
                     if h in CONTAINER_HINTS:
                         return self.ev_list(node.args, st2, ctx, lambda svs, st3: self.builtin_method(h, f.attr, recv, svs, node, st3, ctx, k))
